@@ -975,6 +975,51 @@ def _confirm(b: Bundle, lab: str, info, failing: list[int]):
 
 # ====================================================================== falsifier
 
+def measurement_lead_case(prm: dict):
+    """A measurement equation that reads a LEAD of a transition variable:  o = c*x{+lead} + d  with  x = a*x{-1} + k + e.
+    Closed form of the model-consistent continuation: E_t x[t+j] = xbar + a^j (x[t] - xbar).  Returns None when the model is
+    rejected or the equation holds, else a Failure."""
+    import irispie as ir
+    a, k, c, d, lead, shock = (prm[q] for q in ("a", "k", "c", "d", "lead", "shock"))
+    src = ("!transition-variables\n  x\n!transition-shocks\n  e\n!measurement-variables\n  o\n"
+           f"!transition-equations\n  x = {_num(a)}*x{{-1}} + {_num(k)} + e;\n"
+           f"!measurement-equations\n  o = {_num(c)}*x{{+{lead}}} + {_num(d)};\n")
+    try:
+        m = ir.Simultaneous.from_string(src, linear=True)
+        with contextlib.redirect_stdout(io.StringIO()):
+            m.steady()
+        m.solve()
+    except Exception:
+        return None                     # the model is refused: nothing is simulated
+    if m.get_solution().system_stability.name != "STABLE":
+        return None
+    start = ir.qq(*START)
+    span = start >> (start + 3)
+    db = ir.Databox.steady(m, span)
+    db["e"][start] = shock
+    try:
+        out = m.simulate(db, span, method="first_order")
+    except Exception:
+        return None
+    xbar = k / (1 - a)
+    bad = []
+    for ti, p in enumerate(span):
+        x = series_value(out, "x", p)
+        want = c * (xbar + a ** lead * (x - xbar)) + d
+        got = series_value(out, "o", p)
+        if not (abs(got - want) <= 1e-8 * (1 + abs(want))):
+            bad.append({"period_index": ti, "o": got, "required": want})
+    if not bad:
+        return None
+    return Failure("measurement:lead-dropped",
+                   "a measurement equation containing a lead of a transition variable is accepted, the model is reported STABLE, "
+                   "but the simulated measurement variable ignores the lead (system.G[:, num_forwards:] drops the column)",
+                   {"source": src, "params": prm, "shock": {"e": shock, "period_index": 0}}, bad[:4],
+                   "o[t] = c*E_t x[t+lead] + d on the model-consistent continuation",
+                   "irispie.Simultaneous.from_string(source, linear=True); steady(); solve(); simulate(Databox.steady(m, span) with "
+                   "e[start]=shock, span, method='first_order')")
+
+
 def falsify(ctx, hints):
     rng = ctx.rng
     fails: list[Failure] = []
@@ -1074,11 +1119,22 @@ def falsify(ctx, hints):
         if s.system_stability.name != want:
             add("verdict:wrong-kind", "the non-determinacy kind differs from the independent root count",
                 {"spec": spec, "source": render_source(spec)[0]}, s.system_stability.name, want)
+    # 3. measurement equations that read a lead of a transition variable
+    info["measurement_lead_models"] = 0
+    for _ in range(ctx.scale(3, 40)):
+        prm = {"a": _r(rng, -0.8, 0.8), "k": _r(rng, 0.5, 2.0), "c": _r(rng, 0.5, 2.0), "d": _r(rng, -1.0, 1.0),
+               "lead": rng.choice([1, 1, 2]), "shock": _r(rng, 0.5, 1.5)}
+        info["measurement_lead_models"] += 1
+        f = measurement_lead_case(prm)
+        if f is not None and all(x.key != f.key for x in fails):
+            fails.append(f)
     return fails, info
 
 
 def replay(ctx, failure: dict):
     inp = failure.get("input") or {}
+    if failure.get("key") == "measurement:lead-dropped" and "params" in inp:
+        return measurement_lead_case(inp["params"])
     spec = inp.get("spec")
     if not spec:
         return None
